@@ -902,3 +902,157 @@ pub fn run_replay(spec: &PropSpec, path: &str) -> i32 {
         0
     }
 }
+
+// ---------------------------------------------------------------------------------------------
+// Sanitizer / interpreter stages (thorough tier, run once in the parent)
+// ---------------------------------------------------------------------------------------------
+
+fn run_with_timeout(mut cmd: Command, secs: u64) -> (Option<i32>, String) {
+    cmd.stdin(Stdio::null()).stdout(Stdio::piped()).stderr(Stdio::piped());
+    let Ok(mut child) = cmd.spawn() else { return (None, "could not spawn".into()) };
+    // drain pipes on threads so that a chatty child cannot block
+    let mut out = child.stdout.take();
+    let mut err = child.stderr.take();
+    let t1 = std::thread::spawn(move || {
+        let mut s = String::new();
+        if let Some(o) = out.as_mut() {
+            let _ = std::io::Read::read_to_string(o, &mut s);
+        }
+        s
+    });
+    let t2 = std::thread::spawn(move || {
+        let mut s = String::new();
+        if let Some(o) = err.as_mut() {
+            let _ = std::io::Read::read_to_string(o, &mut s);
+        }
+        s
+    });
+    let t0 = Instant::now();
+    let mut code = None;
+    loop {
+        match child.try_wait() {
+            Ok(Some(st)) => {
+                code = st.code();
+                break;
+            }
+            Ok(None) => {
+                if t0.elapsed().as_secs() > secs {
+                    let _ = child.kill();
+                    let _ = child.wait();
+                    break;
+                }
+                std::thread::sleep(std::time::Duration::from_millis(200));
+            }
+            Err(_) => break,
+        }
+    }
+    let text = format!("{}\n{}", t1.join().unwrap_or_default(), t2.join().unwrap_or_default());
+    (code, text)
+}
+
+/// Miri stage: the same check compiled for the interpreter with its reduced `miri` tier, under
+/// several scheduler seeds.  UB / data race / deadlock reports are violations; an unusable
+/// toolchain only marks the stage as skipped.
+pub fn miri_stage(ctx: &mut Ctx, many_seeds: &str, budget_s: u64) {
+    let harness = format!("{}/harness/Cargo.toml", verif_dir());
+    let mut cmd = Command::new("cargo");
+    cmd.arg("+nightly")
+        .arg("miri")
+        .arg("run")
+        .arg("--offline")
+        .arg("--manifest-path")
+        .arg(&harness)
+        .arg("--")
+        .arg(ctx.id)
+        .arg("--tier")
+        .arg("miri")
+        .arg("--seed")
+        .arg(ctx.seed.to_string())
+        .env("CARGO_TARGET_DIR", format!("{}/target", verif_dir()))
+        .env("CARGO_NET_OFFLINE", "true")
+        .env("MIRIFLAGS", format!("-Zmiri-disable-isolation -Zmiri-ignore-leaks {many_seeds}"));
+    let t0 = Instant::now();
+    let (code, text) = run_with_timeout(cmd, budget_s);
+    let ub = text.contains("Undefined Behavior") || text.contains("Data race detected") || text.contains("deadlock");
+    let summary = json!({
+        "exit_code": code, "wall_s": t0.elapsed().as_secs_f64(), "many_seeds": many_seeds,
+        "reported_ub_or_race": ub,
+        "tail": text.lines().rev().take(6).collect::<Vec<_>>(),
+    });
+    if ub {
+        let report: Vec<&str> = text.lines().filter(|l| l.contains("error") || l.contains("Undefined") || l.contains("race") || l.contains("-->")).take(40).collect();
+        ctx.violation("Miri reported undefined behaviour / a data race / a deadlock", json!({"report": report}));
+    } else if code == Some(0) {
+        // merge what the interpreted run judged
+        let p = format!("{}/work/{}-miri.json", verif_dir(), ctx.id);
+        if let Some(v) = std::fs::read(&p).ok().and_then(|b| serde_json::from_slice::<Value>(&b).ok()) {
+            let evals = v["evaluations"].as_u64().unwrap_or(0);
+            let viol = v["violation_count"].as_u64().unwrap_or(0);
+            ctx.stage_add("miri_evaluations", evals);
+            if viol > 0 {
+                if let Some(a) = v["violations"].as_array() {
+                    for x in a.iter().take(3) {
+                        ctx.violation("violation observed under Miri", x.clone());
+                    }
+                }
+            }
+        }
+    } else if code == Some(1) && text.contains("VIOLATION") {
+        ctx.violation("violation observed under Miri", json!({"output": text.lines().rev().take(20).collect::<Vec<_>>()}));
+    } else {
+        ctx.note(&format!("Miri stage did not complete (exit {code:?}); treated as skipped, not as a verdict"));
+    }
+    ctx.stage("miri", summary);
+}
+
+/// ThreadSanitizer stage: rebuild the harness with -Zsanitizer=thread (-Zbuild-std) and run one
+/// shard of the quick workload; any report fails the run (exit 66).
+pub fn tsan_stage(ctx: &mut Ctx, budget_s: u64) {
+    let harness = format!("{}/harness/Cargo.toml", verif_dir());
+    let target_dir = format!("{}/target/tsan", verif_dir());
+    let mut build = Command::new("cargo");
+    build
+        .arg("+nightly")
+        .arg("build")
+        .arg("--release")
+        .arg("--offline")
+        .arg("-Zbuild-std")
+        .arg("--target")
+        .arg("x86_64-unknown-linux-gnu")
+        .arg("--manifest-path")
+        .arg(&harness)
+        .env("CARGO_TARGET_DIR", &target_dir)
+        .env("CARGO_NET_OFFLINE", "true")
+        .env("RUSTFLAGS", "-Zsanitizer=thread");
+    let t0 = Instant::now();
+    let (bcode, btext) = run_with_timeout(build, 900);
+    if bcode != Some(0) {
+        ctx.note(&format!("TSan build did not succeed (exit {bcode:?}); stage skipped, not a verdict"));
+        ctx.stage("tsan", json!({"built": false, "tail": btext.lines().rev().take(5).collect::<Vec<_>>()}));
+        return;
+    }
+    let exe = format!("{target_dir}/x86_64-unknown-linux-gnu/release/hv");
+    let out = format!("{}/work/{}-tsan.json", verif_dir(), ctx.id);
+    let mut run = Command::new(&exe);
+    run.arg("child").arg(ctx.id).arg("quick").arg(ctx.seed.to_string()).arg("0").arg("16").arg(&out).env("TSAN_OPTIONS", "halt_on_error=1 exitcode=66 second_deadlock_stack=1");
+    let (code, text) = run_with_timeout(run, budget_s);
+    let raced = code == Some(66) || text.contains("WARNING: ThreadSanitizer");
+    if raced {
+        let report: Vec<&str> = text.lines().filter(|l| !l.trim().is_empty()).take(60).collect();
+        ctx.violation("ThreadSanitizer reported a data race", json!({"report": report}));
+    } else if code == Some(0) {
+        if let Some(v) = std::fs::read(&out).ok().and_then(|b| serde_json::from_slice::<Value>(&b).ok()) {
+            ctx.stage_add("tsan_evaluations", v["evaluations"].as_u64().unwrap_or(0));
+            if v["violation_count"].as_u64().unwrap_or(0) > 0 {
+                if let Some(a) = v["violations"].as_array() {
+                    for x in a.iter().take(3) {
+                        ctx.violation("violation observed in the ThreadSanitizer build", x.clone());
+                    }
+                }
+            }
+        }
+    } else {
+        ctx.note(&format!("TSan run did not complete (exit {code:?}); treated as skipped, not as a verdict"));
+    }
+    ctx.stage("tsan", json!({"built": true, "exit_code": code, "wall_s": t0.elapsed().as_secs_f64(), "reported_race": raced}));
+}
